@@ -8,7 +8,29 @@ From PG Require Import Common.Tactics Model.SymCoreDefs Model.SymCoreOps Model.S
      Proofs.SymCoreEventsBase Proofs.SymCoreEventsDeliver Proofs.SymCoreEventsStep Proofs.SymCoreEventsWF
      Proofs.SymCoreEventsOrder Proofs.SymCoreEventsTheorems Proofs.SymCoreEventsExamples.
 From PG Require Import Model.SymCoreEventsSpec Proofs.SymCoreEventsQuery Proofs.SymCoreEventsFrame Proofs.SymCoreEventsFresh.
+From PG Require Import Gen.NotifySrc Proofs.SymCoreEventsInstance.
 From Coq Require Import NArith.
+
+(* ---- the source, as read by the translator on this run (Gen/NotifySrc.v) ------------------------------------------------------------------- *)
+(* every method of pg.List / pg.Dict that performs a raw write on the built-in base invalidates the content caches (itself or through a method
+   of self it calls) and hands back / sends the FieldUpdate of what it wrote *)
+Theorem C09_every_write_site_invalidates : forallb (fun r => snd (fst r)) write_sites = true /\ forallb snd write_sites = true.
+Proof. exact (conj generated_write_sites_invalidate generated_write_sites_report). Qed.
+Print Assumptions C09_every_write_site_invalidates.
+(* the two functions the model is written after have the recognised shape: the invalidation resets the three memo attributes on the node
+   and on every ancestor (= the reset of a TW entry); the notification walks from update.target upward, keys payloads by
+   update.path.keys[target.sym_path.depth:], delivers in descending path order, resets the three attributes before _on_change and stops after
+   self when notify_parents is False (= deliver / notified_targets) *)
+Theorem C09_source_shape_is_the_model :
+  (invalidated_attrs = cache_attr_names /\ invalidate_walks_to_root = true /\
+   forall st cid, reset_of (TW st cid) = map nid0 (chain_of st cid)) /\
+  (notify_walks_from_update_target = true /\ notify_relative_path_by_depth = true /\ notify_sorted_descending_by_path = true /\
+   notify_resets_before_on_change = cache_attr_names /\ notify_stops_after_self_when_not_parents = true).
+Proof.
+  split. exact generated_invalidate_is_the_model_reset.
+  destruct generated_notify_is_the_model_delivery as (A & B & C & D & E & _). auto.
+Qed.
+Print Assumptions C09_source_shape_is_the_model.
 
 (* ---- silence ---------------------------------------------------------------------------------------------------------------------- *)
 (* inside a notifications-disabled scope no change event is delivered, whatever the operation, the forest, the arguments *)
